@@ -121,7 +121,7 @@ def corr(seed, tier):
     # the harness' own oracle (property-level) failures
     res["failures"] += rep.get("failures", [])
     nswapped = sum(1 for f in rep.get("failures", []) if f.get("signature") == "m0_m_swapped")
-    if variant.startswith("current") and nswapped == 0 and rep.get("strata", {}).get("cast:SubManifold<VectorXd>/plain", 0) > 0:
+    if variant.startswith("current") and nswapped == 0 and not rep.get("crash") and rep.get("strata", {}).get("cast:SubManifold<VectorXd>/plain", 0) > 0:
         res["problems"].append({"kind": "oracle-inconsistent", "log": "model says cast swaps origin/value but the oracle saw no swapped cast"})
     if variant.startswith("repaired") and nswapped:
         res["problems"].append({"kind": "oracle-inconsistent", "log": "model (repaired) agrees but the oracle saw swapped casts"})
